@@ -2,8 +2,43 @@
 """Generates /verif/MANIFEST.json from the table below (kept next to the checks it describes)."""
 import json, subprocess
 
+MC = 'explicit-state model checking of the real code: breadth-first search over environment-event histories of a closed world (real Session manager + real PeerHandler::run() tasks over in-memory pipes, paused tokio clock, real piece files), every successor computed by replaying the history against fresh real objects, states deduplicated on a canonical snapshot'
 ENUM = "bounded-exhaustive enumeration of inputs against a reference model (explicit enumeration, no sampling)"
 CHECKS = {
+
+ "C01": ("model_checking", MC, "E-SYS pumped world",
+         "BFS over all histories (depth 10 / 12) of 1..2 adversarial peers (correct, bit-flipped, mis-indexed, shifted, short/long, duplicated, unrequested blocks; choke; close; reset) plus an observer that requests data, at most 3 (quick) / 4 (thorough) dishonest events per history, every tie-break of the piece chooser enumerated. In every reachable state: every *.piece file hashes to its name and to a piece of the torrent, Have implies a stored verified file, every Have/Bitfield/Piece frame written refers to stored verified data and carries the right bytes, output files only from complete verified data, no live task sits on a fully assembled piece, every Reserved status is backed by a live unchoking peer that is fetching it.",
+         "payload bytes abstracted to per-block tags in the state key; 2-piece torrent (16387 B + 5 B); bounds as stated in the evidence", "DESIGN.md C01"),
+ "C06": ("model_checking", "exhaustive enumeration of (message stream, segmentation into reads, ending) triples against the real Connection::recv_frame polled by hand, reference stream decoder as oracle; plus exhaustive undecodable/closed endings inside the real connection task", "E-SEG + E-SYS",
+         "Every stream of <=2 (quick) / <=3 (thorough) messages over a 16-symbol alphabet (valid, unknown ids, wrong fixed lengths, oversized, bad protocol strings, 16 KiB and maximal frames) x every segmentation (all 2^(n-1) for short streams, all subsets of <=2/3 cuts from a cut-point set otherwise) x {open, EOF, truncation points}: frames delivered after each read equal the reference decoding of the delivered prefix (nothing complete is withheld, unknown ids skipped), no panic, the buffer is always a proper frame prefix <= one maximal frame, undecodable or truncated streams raise an error once the offending message is complete. E-SYS: the same endings in a real PeerHandler::run() task must end the task and make the manager drop the peer in that very step, without any timer.",
+         "reference decoder harness/src/refwire.rs; id 0x54 deliberately outside the alphabet (see DESIGN.md)", "DESIGN.md C06"),
+ "C08": ("model_checking", MC, "E-SYS pumped world",
+         "BFS to depth 6 / 8 over a 14-symbol alphabet (good handshake, two single-bit hash corruptions, foreign peer id, wrong protocol string, wrong pstrlen, truncated handshake, 7 ordinary messages) on an outgoing and an incoming connection with the manager owning all pieces, plus all 160 single-bit hash corruptions: first written message is the own correct handshake, nothing is written on an incoming connection before a valid handshake, after a foreign handshake nothing more is written, the task ends and the manager forgets the peer, no Piece frame without a completed valid handshake.",
+         "handshakes are recognised by the reference stream decoder over all bytes fed, so misaligned ones do not count", "DESIGN.md C08"),
+ "C09": ("model_checking", "exhaustive enumeration of request histories (240-request boundary alphabet x choke contexts x pairs/triples with real rotation decisions in between) executed in the pumped world (real connection task + real manager); oracle on written frames", "E-SYS pumped world",
+         "Every request of {5 indices}x{8 offsets}x{6 lengths} in each of 5 choke contexts on both connection directions, every pair (loader request, any request) with nothing / choke / choke+unchoke by the real rotation in between (thorough: all 240^2 pairs and triples over 12 requests): at most one Piece per request, same index and offset, exactly the stored bytes, only while the last choke-state frame written is Unchoke, only owned pieces, length <= 16 KiB inside the piece, no panic.",
+         "overflow checks on (as cargo test / cargo run builds); nothing claimed for fields outside the alphabet", "DESIGN.md C09"),
+ "C10": ("model_checking", MC + "; plus exhaustive enumeration of the block list for every piece length 1..=81921", "E-ENUM + E-SYS pumped world",
+         "PieceRx::left(n) for EVERY n in 1..=81921 tiles n exactly (contiguous, <=16 KiB, only the last shorter). For 7 piece lengths around the block size plus the short last piece: BFS over every order in which the peer answers outstanding requests, duplicates an answered block or stops: requests name the piece being fetched, never overlap, cover it exactly; an accepted block is followed by a further request while blocks are unrequested; the piece is stored exactly when the last outstanding block arrives.",
+         "one connection, honest payloads", "DESIGN.md C10"),
+ "C11": ("model_checking", MC, "E-SYS pumped world (gated broadcasts)",
+         "BFS (depth 9-11 quick / 11-14 thorough) over all interleavings of piece completions on a downloading connection with connect/handshake/choke/unchoke of an outgoing and an incoming observer and the release of each held-back manager broadcast: the bitfield written equals the set of verified stored pieces at that moment, every Have(i) is written only when piece i is stored, and whenever an observer is not choking us every completion released to its connection task has been announced, in completion order.",
+         "single-block pieces; completion order = order of SendHave broadcasts", "DESIGN.md C11"),
+ "C12": ("model_checking", MC, "E-SYS pumped world",
+         "BFS (depth 6 quick / 8-9 thorough; 675k states, 5.1M transitions in the thorough tier) over all peer-event histories of 2..3 real connection tasks (bitfield subsets, have, choke, unchoke incl. repeated, interest, answering the outstanding request also while choking, disconnect, gated broadcast release) on a 3-piece (end game) and a 13-piece torrent, every chooser tie-break enumerated. In every quiescent state: Have is monotone, every Reserved status is backed by a connected peer that does not choke us, holds that assignment and whose task fetches it, every Request names an advertised piece the client lacks, neither manager nor task panics.",
+         "invariants evaluated at quiescence (Lipton reduction argued in DESIGN.md 0.2)", "DESIGN.md C12"),
+ "C13": ("model_checking", "exhaustive enumeration of manager states x every tie-break (every Fisher-Yates digit vector of the real shuffle) against the statement's definition; the real choose_piece_index is called for each", "E-MGR",
+         "n<=4 pieces: every status vector over {Missing, Reserved(1), Reserved(2), Have} x every advertised set of the asked peer and 1-2 others x all n! tie-breaks (quick 1.2M, thorough more); end-game threshold family n=9..12: every (have,reserved,missing) split, structured advertised sets, every candidate brought to the front once. The pick must be advertised, not owned, not reserved unless fewer than ten remain, and of minimal availability; nothing is picked iff no such piece exists.",
+         "the asked peer holds no own assignment; observed at choose_piece_index", "DESIGN.md C13"),
+ "C14": ("model_checking", MC + " (manager-only peers for E-MGR)", "E-MGR + E-SYS",
+         "BFS over command histories handed to the real manager for N=2,3 (all events), N=12/13 symmetric (brought to the slot limit, then all events) with the optimistic choice enumerated: never more than 10 regular + 1 optimistic unchokes; after every rotation that was carried out slot holders are interested, no better interested peer is left choked, uninterested peers are choked, and the broadcast equals the state change. E-SYS: 3 real connection tasks with gated broadcasts: once nothing is held back, the Choke/Unchoke frames each peer received add up to the manager's view.",
+         "both reported rates set to the same value (which rate the policy should use is not judged)", "DESIGN.md C14"),
+ "C19": ("model_checking", "(a) bounded-exhaustive enumeration of reply bodies against a reference reading; (b) exhaustive enumeration of tracker fault words F^n.S (all words n<=3, homogeneous n<=70) executed in the full-session world: real event_loop, tracker task, retry loop, handle_tracker_cmd, spawn_peer_handler over HTTP and connect seams", "E-ENUM + E-SYS full-session world",
+         "(a) totality on every string over the C16 alphabet up to length 6/7; 27k structured replies (peer entries good/malformed, interval and failure-reason shapes) read exactly as the harness reads them. (b) for every fault word, with a live connection present: after each failed announce the manager must process that connection's next message in the same quiescent step, after the good announce the listed peers are contacted; no panic, no deadlock (n=65..70 cross the 64-slot channel).",
+         "HTTP layer replaced by the seam (request observed after reqwest built it)", "DESIGN.md C19"),
+ "C20": ("model_checking", MC + ", virtual time", "E-SYS pumped world, paused clock",
+         "BFS over every timed script: each 120 s interval cut into slots (30/60/90 s and 1/119 s), one of up to 7 symbols per slot, 6 (quick) / 12 (thorough) intervals, states merged on real state + slot: a connection with only keep-alives or silence since t is ended, forgotten and its reservation released by t+360 s; a connection with a live message in every interval is never closed for inactivity; exactly one KeepAlive frame is written per tick on a live connection.",
+         "messages arrive at slot times only", "DESIGN.md C20"),
  # id: (level, technique, engine, text, note, design_ref)
  "C03": ("exploration", ENUM, "E-ENUM",
          "Every (piece length, file-length list) geometry inside the stated bound is built as a real .torrent, parsed by the real Metainfo, its verified pieces stored as real piece files and extracted by the real Extractor::run(); outputs are compared byte for byte with slices of position-coded content and the per-piece lengths must partition the total. Exhaustive inside the bound, silent outside it.",
@@ -31,18 +66,7 @@ CHECKS = {
          "request observed after reqwest built it (seam), not on a socket", "DESIGN.md C18"),
 }
 PENDING = {
- "C01": "check under construction in this session (E-SYS pumped world); not claimed until it runs soundly",
  "C02": "check under construction (E-SYS full-session world); not claimed until it runs soundly",
- "C06": "check under construction (E-SEG); not claimed until it runs soundly",
- "C08": "check under construction (E-SYS pumped world)",
- "C09": "check under construction (E-SYS pumped world)",
- "C10": "check under construction (E-ENUM + E-SYS)",
- "C11": "check under construction (E-SYS pumped world)",
- "C12": "check under construction (E-SYS pumped world)",
- "C13": "check under construction (E-MGR)",
- "C14": "check under construction (E-MGR)",
- "C19": "part (a) reply grammar runs; part (b) fault sequences in the full-session world under construction; not claimed until both run",
- "C20": "check under construction (E-SYS, virtual time)",
 }
 
 def hook_commits():
@@ -75,6 +99,7 @@ def main():
             "add_only": True,
         },
         "engines": [
+            {"name": "E-SYS/E-MGR/E-SEG", "path": "/verif/harness/src (world.rs, fullworld.rs, explore.rs, c01 c06 c08 c09 c10 c11 c12 c13 c14 c19 c20)", "serves_properties": ["C01","C06","C08","C09","C10","C11","C12","C13","C14","C19","C20"], "kind_free_text": "explicit-state search where every transition runs the real handler/manager code on one pending event (paused tokio clock, in-memory pipes, real files)"},
             {"name": "E-ENUM", "path": "/verif/harness/src (strings.rs, refb.rs, refwire.rs, fixture.rs, c03 c04 c05 c07 c15 c16 c17 c18 c19)", "serves_properties": sorted(CHECKS), "kind_free_text": "bounded-exhaustive input enumeration against reference models written in the harness"},
         ],
         "checks": checks,
